@@ -19,6 +19,7 @@ EXPLANATION = (
 
 
 def run(ctx: Ctx) -> None:
+    tableau.rule_fresh_storage(ctx)
     from ..rules import memo as _memo
     _memo.rule_memo_sound(ctx, ['graphiq/backends/stabilizer/functions/clifford.py', 'graphiq/backends/stabilizer/functions/transformation.py', 'graphiq/backends/stabilizer/state.py', 'graphiq/backends/stabilizer/clifford_tableau.py', 'graphiq/backends/stabilizer/tableau.py'])
     tableau.rule_own_tableau(ctx)
@@ -57,6 +58,8 @@ def rule_wrappers(ctx: Ctx) -> None:
 
 
 KNOCKOUTS = [
+    Knockout("stab-phase-asarray", tableau.TABLEAU, sub_once("            self._phase = np.copy(phase).astype(int)", "            self._phase = np.asarray(phase, dtype=int)"), "own.fresh-storage", "aliases its argument"),
+    Knockout("clifford-phase-iphase-shared", tableau.CTABLEAU, sub_once("        self._iphase = np.zeros(2 * self.n_qubits).astype(int)\n", "        self._iphase = self._phase\n"), "own.fresh-storage", "aliases"),
     Knockout("missing-project-api", gatesum.SSTATE, sub_once("        tableau, outcome, _ = sfc.z_measurement_gate(\n            tableau, qubit_position, measurement_determinism\n        )\n        self._tableau = transform.hadamard_gate(tableau, qubit_position)", "        tableau, outcome, _ = sfc.x_basis_measurement_gate(\n            tableau, qubit_position, measurement_determinism\n        )\n        self._tableau = transform.hadamard_gate(tableau, qubit_position)"), "api.project", "has no x_basis_measurement_gate"),
     Knockout("outcome-unused", CLIFF, sub_once("    tableau.phase[z_rows] = tableau.phase[z_rows] ^ int(outcome)\n", ""), "measure.outcome-used", "remove_qubit", on_fixed_only=True),
     Knockout("halves-foreign-size", CLIFF, sub_once("        phase_list2 = np.split(tab.phase, 2)", "        phase_list2 = [tab.phase[: tableau.n_qubits], tab.phase[tableau.n_qubits :]]"), "num.halves", "tab.phase"),
